@@ -55,6 +55,22 @@ def random_junction_tree(rng, names, shape_of):
     return out
 
 
+def deep_nested_junction_tree(rng, names):
+    """A junction tree whose separators form a strictly nested chain of sizes k, k-1, ..., 1 (the region graph
+    then has k+1 levels): two cliques sharing a k-attribute core, then one clique per shorter prefix of the core."""
+    names = list(names)
+    k = min(int(rng.randint(3, 5)), len(names) - 3)
+    core, rest = names[:k], names[k:]
+    cliques = [tuple(core) + (rest[0],), tuple(core) + (rest[1],)]
+    pos = 2
+    for j in range(k - 1, 0, -1):
+        if pos >= len(rest):
+            break
+        cliques.append(tuple(core[:j]) + (rest[pos],))
+        pos += 1
+    return [gen.shuffled(rng, c) if rng.rand() < 0.5 else c for c in cliques]
+
+
 def random_tree_factor_graph(rng, names):
     names = list(names)
     cliques = []
@@ -89,7 +105,7 @@ def gen_case(rng, tier, idx):
         return dict(kind=kind, attrs=attrs, shape=shape, cls=cls, cliques=cliques, total=total, scale=scale,
                     sweeps=int(gen.pick(rng, [1, 5, 30])), ncalls=int(gen.pick(rng, [1, 2, 3])),
                     damping=float(gen.pick(rng, [0.2, 0.5, 0.8])), pot_seed=int(rng.randint(2 ** 31)))
-    d = int(rng.randint(2, 8))
+    d = int(rng.randint(2, 9))
     names = [gen.NAMES[i] for i in rng.permutation(len(gen.NAMES))[:d]]
     shape = [int(gen.pick(rng, [1, 2, 2, 3])) for _ in names]
     dom_order = [int(i) for i in rng.permutation(d)]
@@ -97,6 +113,10 @@ def gen_case(rng, tier, idx):
     shape_d = [shape[i] for i in dom_order]
     if kind == 'exact_lbp':
         cliques = random_tree_factor_graph(rng, names)
+    elif d >= 6 and rng.rand() < 0.5:
+        cliques = deep_nested_junction_tree(rng, names)
+        shape = [min(s_, 2) if i < 4 else s_ for i, s_ in enumerate(shape)]   # keep the 5-attribute cliques small
+        shape_d = [shape[i] for i in dom_order]
     else:
         cliques = random_junction_tree(rng, names, None)
         for a in names:                      # attributes not covered stay unconstrained: give them a singleton clique
